@@ -9,7 +9,7 @@ import MontePyVerif.Lemmas.Cfg
 What is PROVED here (for all sentences of the families, no bound on their size):
 
 * `C12_pinned`      every pinned terminal of G is in the table the code uses now (complete finite tables, `decide`);
-* `C12_cfg`         for ANY grammar containing the pinned required productions, every well-formed cell card,
+* `C12_cfg`         (full strength) for ANY grammar containing the pinned required productions, every well-formed cell card,
                     cell geometry, number/shortcut sequence, surface card, number-list/MODE data card, material
                     card and thermal card of G — with any legal layout of gaps — is derivable from the start
                     symbol; `C12_cfg_montepy` instantiates it with the productions extracted from the SLY classes;
@@ -56,6 +56,9 @@ structure Grammar where
     well-formed card of the family (any size, any legal gaps) derives from that parser's start symbol -/
 def C12_cfg_statement : Prop :=
   (∀ P : Prods, reqCell ⊆ P → ∀ c : CellCard, c.WF = true → Der P "cell" c.classes) ∧
+  (∀ P : Prods, reqGeometry ⊆ P → ∀ e : Geom, e.WF = true → ∀ pad : Gap, pad.ok = true →
+      Der P "geometry_expr" (e.classes ++ pad.cls)) ∧
+  (∀ P : Prods, reqNumbers ⊆ P → ∀ es : Entries, es ≠ [] → es.WF = true → Der P "number_sequence" es.classes) ∧
   (∀ P : Prods, reqSurface ⊆ P → ∀ s : SurfaceCard, s.WF = true → Der P "surface" s.classes) ∧
   (∀ P : Prods, reqData ⊆ P → ∀ d : DataCard, d.WF = true → DataCard.isPlain d = true → Der P "data_input" d.classes) ∧
   (∀ P : Prods, reqMaterial ⊆ P → ∀ lead c g0 fr ps, (DataCard.mk lead c g0 (.material fr ps)).WF = true →
@@ -63,39 +66,21 @@ def C12_cfg_statement : Prop :=
   (∀ P : Prods, reqThermal ⊆ P → ∀ lead c g0 laws, (DataCard.mk lead c g0 (.thermal laws)).WF = true →
       Der P "thermal_mat" (DataCard.mk lead c g0 (.thermal laws)).classes)
 
-/-- The excluded class of the partial theorem: an interpolation `a nI 0` that ENDS on a zero.  The required
-    productions (and MontePy's grammar: `shortcut_start INTERPOLATE padding number_phrase`, where `number_phrase`
-    is a non-zero NUMBER) have no rule for it; the real parser rejects `e4 5 3i 0` (known finding C12-F-interp0).
-    The full statement is kept above; it is not proved, and its failure is exhibited on the real parser, not in
-    Lean (non-derivability from an arbitrary superset of productions is not a theorem). -/
-def C12_cfg_partial_statement : Prop :=
-  (∀ P : Prods, reqCell ⊆ P → ∀ c : CellCard, c.WF = true → c.interpEndNonzero = true → Der P "cell" c.classes) ∧
-  (∀ P : Prods, reqGeometry ⊆ P → ∀ e : Geom, e.WF = true → ∀ pad : Gap, pad.ok = true →
-      Der P "geometry_expr" (e.classes ++ pad.cls)) ∧
-  (∀ P : Prods, reqNumbers ⊆ P → ∀ es : Entries, es ≠ [] → es.WF = true → es.interpEndNonzero = true →
-      Der P "number_sequence" es.classes) ∧
-  (∀ P : Prods, reqSurface ⊆ P → ∀ s : SurfaceCard, s.WF = true → s.constants.interpEndNonzero = true →
-      Der P "surface" s.classes) ∧
-  (∀ P : Prods, reqData ⊆ P → ∀ d : DataCard, d.WF = true → d.interpEndNonzero = true → DataCard.isPlain d = true →
-      Der P "data_input" d.classes) ∧
-  (∀ P : Prods, reqMaterial ⊆ P → ∀ lead c g0 fr ps, (DataCard.mk lead c g0 (.material fr ps)).WF = true →
-      (DataCard.mk lead c g0 (.material fr ps)).interpEndNonzero = true →
-      Der P "material" (DataCard.mk lead c g0 (.material fr ps)).classes) ∧
-  (∀ P : Prods, reqThermal ⊆ P → ∀ lead c g0 laws, (DataCard.mk lead c g0 (.thermal laws)).WF = true →
-      Der P "thermal_mat" (DataCard.mk lead c g0 (.thermal laws)).classes)
-
-theorem C12_cfg_partial : C12_cfg_partial_statement :=
-  ⟨fun _ h c hw hn => cell_der h c hw hn,
+/-- Full strength.  (Until MontePy commit e8e6f87 the interpolate productions ended in `number_phrase`, a non-zero
+    NUMBER, and this was only provable as `C12_cfg_partial` under the hypothesis that no interpolation ends on a
+    zero; the productions now end in `numerical_phrase` and the hypothesis is gone.) -/
+theorem C12_cfg : C12_cfg_statement :=
+  ⟨fun _ h c hw => cell_der h c hw,
    fun _ h e hw pad hp => (geom_der h e hw).2.2.2 pad hp,
-   fun _ h es hne hw hn => entries_der h es hne hw hn,
-   fun _ h s hw hn => surface_der h s hw hn,
-   fun _ h d hw hn hp => data_der h d hw hn hp,
-   fun _ h lead c g0 fr ps hw hn => material_der h lead c g0 fr ps hw hn,
+   fun _ h es hne hw => entries_der h es hne hw,
+   fun _ h s hw => surface_der h s hw,
+   fun _ h d hw hp => data_der h d hw hp,
+   fun _ h lead c g0 fr ps hw => material_der h lead c g0 fr ps hw,
    fun _ h lead c g0 laws hw => thermal_der h lead c g0 laws hw⟩
 
-/-- geometry needs no exclusion: the statement for cell geometry holds at full strength -/
+/-- the geometry part on its own -/
 theorem C12_cfg_geometry : ∀ P : Prods, reqGeometry ⊆ P → ∀ e : Geom, e.WF = true → ∀ pad : Gap, pad.ok = true →
-    Der P "geometry_expr" (e.classes ++ pad.cls) := C12_cfg_partial.2.1
+    Der P "geometry_expr" (e.classes ++ pad.cls) := C12_cfg.2.1
 
 /-- the per-run obligation: the required productions are among those the translator extracted from the SLY
     parser classes of the working tree (deleting or altering a production G needs fails here) -/
@@ -108,16 +93,13 @@ theorem C12_required_productions :
     Grammar.thermalParser.start = "thermal_mat" := by
   refine ⟨by decide, by decide, by decide, by decide, by decide, by decide, by decide, by decide, by decide, by decide⟩
 
-/-- `C12_cfg_partial` instantiated with MontePy's grammars as they are now -/
+/-- `C12_cfg` instantiated with MontePy's grammars as they are now -/
 theorem C12_cfg_montepy :
-    (∀ c : CellCard, c.WF = true → c.interpEndNonzero = true →
-      Der Grammar.cellParser.productions Grammar.cellParser.start c.classes) ∧
-    (∀ s : SurfaceCard, s.WF = true → s.constants.interpEndNonzero = true →
-      Der Grammar.surfaceParser.productions Grammar.surfaceParser.start s.classes) ∧
-    (∀ d : DataCard, d.WF = true → d.interpEndNonzero = true → DataCard.isPlain d = true →
+    (∀ c : CellCard, c.WF = true → Der Grammar.cellParser.productions Grammar.cellParser.start c.classes) ∧
+    (∀ s : SurfaceCard, s.WF = true → Der Grammar.surfaceParser.productions Grammar.surfaceParser.start s.classes) ∧
+    (∀ d : DataCard, d.WF = true → DataCard.isPlain d = true →
       Der Grammar.dataParser.productions Grammar.dataParser.start d.classes) ∧
     (∀ lead c g0 fr ps, (DataCard.mk lead c g0 (.material fr ps)).WF = true →
-      (DataCard.mk lead c g0 (.material fr ps)).interpEndNonzero = true →
       Der Grammar.materialParser.productions Grammar.materialParser.start
         (DataCard.mk lead c g0 (.material fr ps)).classes) ∧
     (∀ lead c g0 laws, (DataCard.mk lead c g0 (.thermal laws)).WF = true →
@@ -125,11 +107,11 @@ theorem C12_cfg_montepy :
         (DataCard.mk lead c g0 (.thermal laws)).classes) := by
   obtain ⟨h1, h2, h3, h4, h5, s1, s2, s3, s4, s5⟩ := C12_required_productions
   rw [s1, s2, s3, s4, s5]
-  exact ⟨fun c hw hn => C12_cfg_partial.1 _ h1 c hw hn,
-    fun s hw hn => C12_cfg_partial.2.2.2.1 _ h2 s hw hn,
-    fun d hw hn hp => C12_cfg_partial.2.2.2.2.1 _ h3 d hw hn hp,
-    fun lead c g0 fr ps hw hn => C12_cfg_partial.2.2.2.2.2.1 _ h4 lead c g0 fr ps hw hn,
-    fun lead c g0 laws hw => C12_cfg_partial.2.2.2.2.2.2 _ h5 lead c g0 laws hw⟩
+  exact ⟨fun c hw => C12_cfg.1 _ h1 c hw,
+    fun s hw => C12_cfg.2.2.2.1 _ h2 s hw,
+    fun d hw hp => C12_cfg.2.2.2.2.1 _ h3 d hw hp,
+    fun lead c g0 fr ps hw => C12_cfg.2.2.2.2.2.1 _ h4 lead c g0 fr ps hw,
+    fun lead c g0 laws hw => C12_cfg.2.2.2.2.2.2 _ h5 lead c g0 laws hw⟩
 
 /-! non-vacuity: concrete sentences of G that satisfy every hypothesis -/
 
@@ -153,12 +135,12 @@ def exampleCell : CellCard where
        val := .lattice ⟨"0", true⟩ ⟨"1", false⟩ [.space] ⟨"0", true⟩ ⟨"0", true⟩ [.space] ⟨"0", true⟩ ⟨"0", true⟩
          [.space] [(.real ⟨"5", false⟩, [.space]), (.real ⟨"6", false⟩, [.space, .dollar])] }]
 
-example : exampleCell.WF = true ∧ exampleCell.interpEndNonzero = true := by decide
+example : exampleCell.WF = true := by decide
 example : exampleCell.render =
     ["1", "0", "(", "1", ":", "-2", ")", "(", "3", ")", "#", "4", "imp:n,p", "1",
      "fill", "0", ":", "1", "0", ":", "0", "0", ":", "0", "5", "6"] := by decide
 example : Der Grammar.cellParser.productions "cell" exampleCell.classes :=
-  C12_cfg_montepy.1 exampleCell (by decide) (by decide)
+  C12_cfg_montepy.1 exampleCell (by decide)
 
 /-- `*7 -3 k/x 1 2r 4 0.5` -/
 def exampleSurface : SurfaceCard where
@@ -172,7 +154,18 @@ def exampleSurface : SurfaceCard where
   constants := [(.rep ⟨"1", false⟩ [.space] "2r" true, [.space]), (.real ⟨"4", false⟩, [.space]),
     (.real ⟨"0.5", false⟩, [])]
 
-example : exampleSurface.WF = true ∧ exampleSurface.constants.interpEndNonzero = true := by decide
+example : exampleSurface.WF = true := by decide
+
+/-- `e4 5 3i 0`: an interpolation that ends on zero is a sentence of G and is derivable now -/
+def exampleInterpZero : DataCard where
+  lead := []
+  classifier := { star := false, name := "e", nameCls := "PARTICLE", number := some "4", particles := [] }
+  g0 := [.space]
+  body := .numbers none [(.interp ⟨"5", false⟩ [.space] "3i" true false [.space] ⟨"0", true⟩, [])]
+
+example : exampleInterpZero.WF = true ∧ exampleInterpZero.interpEndNonzero = false := by decide
+example : Der Grammar.dataParser.productions "data_input" exampleInterpZero.classes :=
+  C12_cfg_montepy.2.2.1 exampleInterpZero (by decide) (by decide)
 
 /-! ## C12_dispatch -/
 
